@@ -90,6 +90,13 @@ pub fn check_msg(m: &M, st: &mut Stats) -> Result<(), String> {
                 if back3 != back {
                     return Err(format!("{}: the second of two frames written back to back reads as {back3:?}", m.short()));
                 }
+                // the wire text itself as a stream (with its line end, or ending at end-of-stream without one: the
+                // terminator is optional in the wire form)
+                let mut rd = Choppy(&wire, 0);
+                let back4 = Frame::read(&mut rd).map_err(|e| format!("wire form {} of {} does not read back from a stream that ends after it: {e}", show_bytes(&wire), m.short()))?;
+                if back4 != back {
+                    return Err(format!("{}: Frame::read of the wire text gives {back4:?}, Frame::from_bytes gives {back:?}", m.short()));
+                }
                 let msg2 = Message::from(back);
                 if msg2 != msg {
                     let len = match m {
